@@ -46,7 +46,7 @@ ASSUMPTIONS = common.BASE_ASSUMPTIONS + [
 ]
 REAL_VS_STUB = common.REAL_VS_STUB
 QUICK_RUNS = 5200
-O_SLICE_UNITS = 40
+O_SLICE_UNITS = 24
 EXPECTED_PROBES = {
     t: ["history_runs", "thread_runs", "aborted_ops", "setattr_attempts", "delattr_attempts", "thread_switches", "cfgtp5_poll_ops", "config_ops", "construct_ops", "read_ops", "switch_inside__set_attribute"]
     for t in ("quick", "thorough")
